@@ -242,7 +242,24 @@ def finish(ctx: Ctx, module: str, theorems: list[str], build: LeanBuild, audit: 
            trusted_extra=(), explanation=""):
     """Compute verdict, write evidence, print VIOLATION / KNOWN-FINDING lines, return exit code."""
     known = load_known()
-    known_sigs = {k["signature"]: k for k in known.get("known", []) if k["property"] == ctx.prop}
+    known_list = [k for k in known.get("known", []) if k["property"] == ctx.prop]
+
+    class _Known(dict):
+        """lookup by exact signature or by the entry's signature_regex (full match)"""
+
+        def find(self, sig):
+            for k in known_list:
+                if k.get("signature") == sig or ("signature_regex" in k and re.fullmatch(k["signature_regex"], sig)):
+                    return k
+            return None
+
+        def __contains__(self, sig):
+            return self.find(sig) is not None
+
+        def __getitem__(self, sig):
+            return self.find(sig)
+
+    known_sigs = _Known()
     discharged = 0
     obligations = len(theorems)
     ax_report = {}
@@ -268,8 +285,9 @@ def finish(ctx: Ctx, module: str, theorems: list[str], build: LeanBuild, audit: 
     seen_known = set()
     for f in ctx.failures:
         if f.signature in known_sigs:
-            if f.signature not in seen_known:
-                seen_known.add(f.signature)
+            kid = known_sigs[f.signature].get("signature") or known_sigs[f.signature].get("signature_regex")
+            if kid not in seen_known:
+                seen_known.add(kid)
                 lines.append("KNOWN-FINDING: property=%s %s [%s]" % (ctx.prop, known_sigs[f.signature]["what"], f.signature))
             continue
         nviol += 1
